@@ -165,6 +165,15 @@ CassOkIn(t, underFrozen) ==
     /\ \A i \in 1..Len(t.a) : CassOkIn(t.a[i], t.k = "frozen")
 CassOk(t) == IF t.k = "reversed" THEN CassOkIn(t.a[1], FALSE) ELSE CassOkIn(t, FALSE)
 
+\* Value codec.  frozen and reversed say how a value is STORED and ORDERED, not how it is encoded: on every native
+\* protocol version the wire form of a value of t is the wire form of the same value for ValueType(t), the tree
+\* without these wrappers (so a top-level frozen / reversed collection has the 2-byte counts and lengths of
+\* protocol v1 / v2 there, and the 4-byte ones from v3 on, exactly like the collection it wraps).
+WireVersions == {1, 2, 3, 4}
+RECURSIVE ValueType(_)
+ValueType(t) == IF t.k \in {"frozen", "reversed"} THEN ValueType(t.a[1])
+                ELSE [t EXCEPT !.a = [i \in 1..Len(t.a) |-> ValueType(t.a[i])]]
+
 StripFrozen(t) == IF t.k = "frozen" THEN StripFrozen(t.a[1])
                   ELSE [t EXCEPT !.a = [i \in 1..Len(t.a) |-> StripFrozen(t.a[i])]]
 
@@ -175,12 +184,13 @@ VARIABLES t,          \* the type tree
           cql,        \* CqlName(t)
           stripped,   \* CqlName(StripFrozen(t))
           py,         \* PyForm(t): the structure cqltype_to_python(CqlName(t)) must have
+          plain,      \* CassName(ValueType(t)): the descriptor of the type whose value codec t has (all WireVersions)
           prev        \* parse history: the descriptors (token sequences) parsed BEFORE t's by the same process
-vars == <<t, cass, cassok, cql, stripped, py, prev>>
+vars == <<t, cass, cassok, cql, stripped, py, plain, prev>>
 
 \* The answers are functions of the tree alone: whatever was parsed before, the descriptor of t denotes t.
 Is(tt) == /\ t = tt /\ cass = CassName(tt) /\ cassok = CassOk(tt) /\ cql = CqlName(tt)
-          /\ stripped = CqlName(StripFrozen(tt)) /\ py = PyForm(tt)
+          /\ stripped = CqlName(StripFrozen(tt)) /\ py = PyForm(tt) /\ plain = CassName(ValueType(tt))
 
 \* Parse histories.  A descriptor contains plain-name tokens (the keyspace of a UserType, class names) next to the
 \* hex-encoded names.  HTrees are descriptors in which a user type's NAME equals such a token of another (or the
@@ -214,6 +224,7 @@ Grow == /\ t.k # "reversed"
         /\ \E tt \in Grown(t) : /\ Depth(tt) <= MaxDepth
                                /\ t' = tt /\ cass' = CassName(tt) /\ cassok' = CassOk(tt) /\ cql' = CqlName(tt)
                                /\ stripped' = CqlName(StripFrozen(tt)) /\ py' = PyForm(tt)
+                               /\ plain' = CassName(ValueType(tt))
         /\ UNCHANGED prev
 
 -----------------------------------------------------------------------------
@@ -239,6 +250,15 @@ Unfreeze(s, i, pend, stk) ==
     ELSE IF s[i] = ">" THEN (IF Head(stk) THEN <<>> ELSE <<">">>) \o Unfreeze(s, i + 1, FALSE, Tail(stk))
     ELSE <<s[i]>> \o Unfreeze(s, i + 1, FALSE, stk)
 StripExact == stripped = Unfreeze(cql, 1, FALSE, <<>>)
+\* the same on descriptors: plain is cass without every FrozenType / ReversedType, its "(" and the matching ")"
+RECURSIVE Unwrap(_, _, _, _)
+Unwrap(s, i, pend, stk) ==
+    IF i > Len(s) THEN <<>>
+    ELSE IF s[i] \in {"FrozenType", "ReversedType"} THEN Unwrap(s, i + 1, TRUE, stk)
+    ELSE IF s[i] = "(" THEN (IF pend THEN <<>> ELSE <<"(">>) \o Unwrap(s, i + 1, FALSE, <<pend>> \o stk)
+    ELSE IF s[i] = ")" THEN (IF Head(stk) THEN <<>> ELSE <<")">>) \o Unwrap(s, i + 1, FALSE, Tail(stk))
+    ELSE <<s[i]>> \o Unwrap(s, i + 1, FALSE, stk)
+WrappersTransparent == plain = Unwrap(cass, 1, FALSE, <<>>) /\ ValueType(ValueType(t)) = ValueType(t)
 
 DepthBound == t \in QTrees \/ Depth(t) <= MaxDepth
 ReversedOutermostOnly == \A i \in 1..Len(cass) : cass[i] = "ReversedType" => i = 1
@@ -250,6 +270,8 @@ Witness_NotCassOk == ~(~cassok /\ t.k = "tuple")
 \* the specification's answers never depend on the history
 HistoryIndependent == cass = CassName(t) /\ cql = CqlName(t) /\ cassok = CassOk(t)
 Witness_NameIsLaterKeyspace == ~(prev = <<CassName(HQ("shop", Leaf("int")))>> /\ t = HQ("shopitem", Leaf("text")))
+Witness_TopLevelFrozenCollection == ~(cassok /\ t.k = "reversed" /\ t.a[1].k = "frozen" /\ t.a[1].a[1].k = "map"
+                                        /\ Len(cass) - Len(plain) = 6)
 Witness_ThreeQuoted == ~(~cassok /\ t \in QTrees /\ t.k = "map" /\ Len(py[2]) = 3 /\ py[2][1] = "\"a\"\"b\""
                            /\ py[2][3] = <<"tuple", <<"\"Big Type\"", "\"other-udt\"">>>>)
 Witness_StripChanges == ~(stripped # cql /\ Len(cql) - Len(stripped) >= 6)
